@@ -8,6 +8,7 @@ from checks import views
 CASTS = ["member_a", "member_b", "reint_int", "reint_short2", "static_const", "const_cast", "as_const", "transformed_a1",
          "transformed_refb", "convert_array", "member_a_const", "reint_int_const", "reint_short2_const",
          "member_b_const", "member_a_rv", "member_b_rv", "reint_int_rv", "reint_short2_rv"]
+REC3_CASTS = ["member_a", "member_b", "member_a_const", "member_b_rv", "static_const", "as_const", "convert_array", "reint_pair", "reint_pair_const", "reint_pair_rv"]
 POST = ["rotated", "unrotated", "reversed", "strided", "dropped", "transposed", "index"]
 OPS = [o for o in views.ALL_OPS if o != "broadcast"]
 
@@ -29,15 +30,22 @@ def run(tier):
     rep = vlib.Report("C12", tier)
     wd = vlib.workdir("c12")
     exe = os.path.join(wd, "replay_projection")
+    exe3 = os.path.join(wd, "replay_projection_rec3")
     ok, text = vlib.compile_cpp(os.path.join(vlib.HARNESS, "replay_projection.cpp"), exe, std="c++20")
-    if not ok:
-        raise vlib.Broken("replay_projection.cpp does not compile:\n" + text[-3000:])
+    ok3, text3 = vlib.compile_cpp(os.path.join(vlib.HARNESS, "replay_projection.cpp"), exe3, flags=["-DVERIF_REC3"], std="c++20")
+    if not ok or not ok3:
+        raise vlib.Broken("replay_projection.cpp does not compile:\n" + (text if not ok else text3)[-3000:])
     # three-dimensional roots under every composition of up to three dimension permutations, then a cast (rank 4 results included)
     perm = consts(3, 2, 3, 0)
     perm["OpNames"] = {"rotated", "unrotated", "transposed"}
-    plan = [("c12_d2", consts(2, 3, 1, 1)), ("c12_d3", consts(3, 2, 1, 1)), ("c12_d2_bases", consts(2, 2, 1, 0, "BasesMixed")), ("c12_d3_perm", perm)]
+    # records of three shorts (6 bytes) reinterpreted as pairs of shorts (4 bytes) on views whose strides are all even
+    rec3 = consts(2, 4, 3, 0)
+    rec3["OpNames"] = {"strided", "rotated", "unrotated"}
+    rec3["Casts"] = set(REC3_CASTS)
+    rec3["RecUnits"] = vlib.Sub("RecUnits3")
+    plan = [("c12_d2", consts(2, 3, 1, 1)), ("c12_d3", consts(3, 2, 1, 1)), ("c12_d2_bases", consts(2, 2, 1, 0, "BasesMixed")), ("c12_d3_perm", perm), ("c12_rec3", rec3)]
     if tier == "thorough":
-        plan = [("c12_d2", consts(2, 3, 2, 2)), ("c12_d3", consts(3, 2, 2, 1)), ("c12_d3e3", consts(3, 3, 1, 2)), ("c12_d2_bases", consts(2, 3, 1, 1, "BasesMixed")), ("c12_d3_perm", perm)]
+        plan = [("c12_d2", consts(2, 3, 2, 2)), ("c12_d3", consts(3, 2, 2, 1)), ("c12_d3e3", consts(3, 3, 1, 2)), ("c12_d2_bases", consts(2, 3, 1, 1, "BasesMixed")), ("c12_d3_perm", perm), ("c12_rec3", rec3)]
     per_cast = rep.cov.setdefault("per_cast", {})
     nontrivial = set()
     for name, c in plan:
@@ -57,7 +65,7 @@ def run(tier):
             exps.append(rec)
             lines.append(jline(len(exps) - 1, rec))
         os.remove(res.out_path)
-        obs, crashes = vlib.run_replayer_chunks(exe, lines, wd, name)
+        obs, crashes = vlib.run_replayer_chunks(exe3 if name == "c12_rec3" else exe, lines, wd, name)
         crashed = {cr["id"]: cr for cr in crashes if cr["id"] is not None}
         nok = unsup = 0
         for pid, exp in enumerate(exps):
@@ -112,7 +120,7 @@ def run(tier):
             rep.cov["samples"].append({"case": exps[pid], "observed": obs.get(pid)})
         vlib.log("C12 %s: TLC %d generated / %d distinct; %d cases, %d agree, %d unsupported" % (name, res.generated, res.distinct, len(exps), nok, unsup))
     rep.cov["distinct_nontrivial"] = len(nontrivial)
-    missing = [c for c in CASTS if per_cast.get(c, 0) == 0]
+    missing = [c for c in CASTS + REC3_CASTS if per_cast.get(c, 0) == 0]
     if missing:
         raise vlib.Broken("casts never exercised: %s" % missing)
     rep.assumptions = ["records are {short a; short b;}; storage is addressed in units of one short; little-endian for the 32-bit reinterpretation",
